@@ -3,7 +3,7 @@ From Coq Require Import ZArith List Bool.
 From Coq Require String.
 From PS.model Require Import Smt Enc Ind Prog.
 From PS.spec Require Import Spec.
-From PS.proofs Require Import Base C08_proof Examples3.
+From PS.proofs Require Import Base C08_proof Reach_proof C08_reach Examples3.
 Import ListNotations.
 Open Scope Z_scope.
 
@@ -31,6 +31,17 @@ Theorem C08_indicators_any_configuration : forall (c : solvercfg) (st : pstate) 
 Proof. intros c st e H. apply C08_sound. exact (sat_setup c e st H). Qed.
 Print Assumptions C08_indicators_any_configuration.
 
+(* The count of tardy tasks when some of the tasks are optional: in every reachable state, for every admitted valuation, the
+   indicator counts exactly the scheduled tasks that end after their (non-negative) due date -- an unscheduled task sits at a
+   negative date and is not counted.  (The tasks an indicator looks at are tasks of the problem: reachable_known.) *)
+Theorem C08_nb_tardy_with_optional_tasks : forall ops st e r ts,
+  reaches ops st -> sat e (initialize st) ->
+  In r (x_inds (ps_ext st)) -> i_expr r = INbTardy ts ->
+  (forall t, In t (tasks_of (i_all r) ts) -> 0 <= due_of t) ->
+  feval e (FEq (TV (VInd (i_id r)))
+               (TAdd (map (fun t => when_t (FAnd [act t; FLt (TC (due_of t)) (E_ t)]) (TC 1)) (tasks_of (i_all r) ts)))) = true.
+Proof. exact nb_tardy_optional_sound. Qed.
+Print Assumptions C08_nb_tardy_with_optional_tasks.
 Theorem C08_hypotheses_satisfiable : exists st, reaches ex3_prog st /\ sat ex3_env (su_asserts (solver_setup default_cfg st))
   /\ List.length (x_inds (ps_ext st)) = 14%nat /\ List.length (x_bufs (ps_ext st)) = 2%nat
   /\ List.length (x_objs (ps_ext st)) = 4%nat /\ List.length (spec_C08 st) = 19%nat.
